@@ -186,6 +186,8 @@ def make_symbolic(spec, name, reg, st):
                     if fin is not None:
                         store.finite = lambda idx: fin(kt, *[_int(i) for i in idx])
                     store.frozen = True
+                    if 'anydtype' in flags:
+                        store.maybe_int = True
                     cache[key] = view_of(store)
                     return cache[key]
                 return SSeq(n, elem, 'obj', name)
@@ -209,6 +211,8 @@ def make_symbolic(spec, name, reg, st):
                 g = z3.Function(f'{name}_finite!{id(shape)}', *([z3.IntSort()] * nd),
                                 z3.BoolSort())
                 store.finite = lambda idx, g=g: g(*[_int(i) for i in idx])
+            if 'anydtype' in spec[3:]:
+                store.maybe_int = True      # may arrive as a narrow (unsigned) integer array
             return view_of(store)
         if tag == 'ufunc':      # ('ufunc', name, arity): external elementwise function (uninterpreted)
             from .values import SFunc
